@@ -138,6 +138,12 @@ def run_server(kconfig, sdkconfig, sdkconfig_rename, default_version=MAX_PROTOCO
     sys.stdout.write("\n")
     sys.stdout.flush()
 
+    # A request line that is not valid UTF-8 is malformed input like any other: decode it leniently and let the JSON
+    # parser report it, instead of letting the decoder's exception end the server (the default error handler of stdin
+    # is "strict" in a UTF-8 locale).
+    if hasattr(sys.stdin, "reconfigure"):
+        sys.stdin.reconfigure(errors="replace")
+
     while True:
         line = sys.stdin.readline()
         if not line:
